@@ -820,6 +820,43 @@ def gen_requests(rng, thorough):
     reqs.append(mk_set(300, -300))
     reqs.append(mk_set(300, 300))
 
+    # --- one character for EVERY valid UTF-8 lead byte (C2..DF, E0..EF, F0..F4) plus the extremes of each length class:
+    # the 4-character alphabet above exercises only four lead bytes
+    lead_chars = []
+    for lead in range(0xC2, 0xE0):
+        lead_chars.append(chr((lead - 0xC0) << 6))
+    for lead in range(0xE0, 0xF0):
+        cp = (lead - 0xE0) << 12
+        if cp < 0x800:
+            cp = 0x800
+        if 0xD800 <= cp <= 0xDFFF:
+            cp = 0xD7FF
+        lead_chars.append(chr(cp))
+    for lead in range(0xF0, 0xF5):
+        cp = (lead - 0xF0) << 18
+        lead_chars.append(chr(max(cp, 0x10000)))
+    lead_chars += ["\u0080", "\u07ff", "\u0800", "\ud7ff", "\ue000", "\uffff", "\U00010000", "\U0010ffff"]
+    step = 1 if thorough else 2
+    for k, ch in enumerate(dict.fromkeys(lead_chars)):
+        for text in (("a" + ch, ch + "b") if (k % step) else ("a" + ch + "b", ch + ch)):
+            sb = text.encode("utf-8")
+            L = len(sb)
+            for x in int_args(L):
+                reqs.append(mk_idx("str", sb, x))
+            for b in range(0, L + 1):
+                for e in range(b, L + 1):
+                    reqs.append(mk_rng("str", sb, b, e))
+            reqs.append(mk_iter(sb))
+            for fn in ("len", "count_chars", "to_bytes", "to_code_points"):
+                reqs.append(mk_str(fn, sb, []))
+            for x in range(0, len(text) + 2):
+                reqs.append(mk_str("char_byte_index", sb, [N(x)]))
+            reqs.append(mk_str("find", sb, [("s", ch.encode("utf-8")), N(0)]))
+            reqs.append(mk_str("split", sb, [("s", ch.encode("utf-8"))]))
+            reqs.append(mk_str("replace", sb, [("s", ch.encode("utf-8")), S("x")]))
+            reqs.append(mk_sfn("from_utf8", [V(list(sb))]))
+            reqs.append(mk_sfn("from_code_points", [V([ord(c) for c in text])]))
+
     # --- natives
     extra = ["aaa", "aaaa", "aéa", "€a€", "😀😀a", "ééé", "aé€😀", "😀€éa", "a,b,,c", ",a,", "abab", "a😀a😀a"]
     r2 = rng.fork("extra-recv")
